@@ -329,4 +329,70 @@ theorem reorientCore_clear {Q : Hex} (hs : Sep Q) {pts : List V3} (hp : pts.Perm
   unfold reorientCore
   simp only [if_neg hview, hq, cornersOf_sides_ok hs pf pb pt po pl pr, eachOnce_self hs, if_true]
 
+/-! ### planar sides: triangle alignment = side alignment -/
+
+/-- the (outward) normal of the half `X` of side `s` is a positive multiple of the side's area vector: what holds for
+    both halves, along either diagonal, of a planar side of a right-handed block -/
+def PlanarHalf (Q : Hex) (s : Nat) (X : Tri) : Prop := ∃ k : Rat, 0 < k ∧ X.normalRaw = V3.smul k (sideNormal Q s)
+
+theorem alignLt_scale {a A b B k m : Rat} (hk : 0 < k) (hm : 0 < m) :
+    alignLt (k * a, k * k * A) (m * b, m * m * B) ↔ alignLt (a, A) (b, B) := by
+  have h1 : k * a < 0 ↔ a < 0 := by
+    constructor
+    · intro h
+      rcases lt_or_ge a 0 with h' | h'
+      · exact h'
+      · exact absurd h (not_lt.mpr (mul_nonneg hk.le h'))
+    · exact fun h => mul_neg_of_pos_of_neg hk h
+  have h2 : m * b < 0 ↔ b < 0 := by
+    constructor
+    · intro h
+      rcases lt_or_ge b 0 with h' | h'
+      · exact h'
+      · exact absurd h (not_lt.mpr (mul_nonneg hm.le h'))
+    · exact fun h => mul_neg_of_pos_of_neg hm h
+  have hp : 0 < k * k * (m * m) := by positivity
+  have e1 : m * b * (m * b) * (k * k * A) = k * k * (m * m) * (b * b * A) := by ring
+  have e2 : k * a * (k * a) * (m * m * B) = k * k * (m * m) * (a * a * B) := by ring
+  have key : ∀ x y : Rat, k * k * (m * m) * x < k * k * (m * m) * y ↔ x < y :=
+    fun x y => ⟨fun h => lt_of_mul_lt_mul_left h hp.le, fun h => mul_lt_mul_of_pos_left h hp⟩
+  unfold alignLt
+  simp only [h1, h2, e1, e2, key]
+
+theorem key_planar {Q : Hex} {s : Nat} {X : Tri} {k : Rat} (h : X.normalRaw = V3.smul k (sideNormal Q s)) (d : V3) :
+    X.key d = (k * (sideKey Q d s).1, k * k * (sideKey Q d s).2) := by
+  unfold Tri.key sideKey
+  rw [h]
+  simp only [V3.dot, V3.norm2, V3.smul_x, V3.smul_y, V3.smul_z, Prod.mk.injEq]
+  constructor <;> ring
+
+/-- for planar halves the comparison the code makes (triangles) is the comparison the specification makes (sides) -/
+theorem alignLt_planar {Q : Hex} {s s' : Nat} {X Y : Tri} (hX : PlanarHalf Q s X) (hY : PlanarHalf Q s' Y) (d : V3) :
+    alignLt (X.key d) (Y.key d) ↔ alignLt (sideKey Q d s) (sideKey Q d s') := by
+  obtain ⟨k, hk, ek⟩ := hX
+  obtain ⟨m, hm, em⟩ := hY
+  rw [key_planar ek, key_planar em]
+  exact alignLt_scale hk hm
+
+/-- a clear view of a right-handed block with planar sides is canonical in the sense of the specification -/
+theorem canonical_of_clear {Q : Hex} {obs ceil : V3} {F1 F2 B1 B2 T1 T2 O1 O2 L1 L2 R1 R2 : Tri}
+    (hv : ClearView (dirsOf Q.center obs ceil) F1 F2 B1 B2 T1 T2 O1 O2 L1 L2 R1 R2)
+    (hF : PlanarHalf Q 4 F1) (hB : PlanarHalf Q 5 B1) (hT : PlanarHalf Q 1 T1) (hO : PlanarHalf Q 0 O1)
+    (hL : PlanarHalf Q 2 L1) (hR : PlanarHalf Q 3 R1) (hrh : ∀ i < 8, 0 < tp Q i) : Canonical obs ceil Q := by
+  refine ⟨?_, ?_, fun i hi => hrh i (List.mem_range.mp hi)⟩
+  · intro s hs
+    simp only [List.mem_cons, List.not_mem_nil, or_false] at hs
+    rcases hs with rfl | rfl | rfl | rfl | rfl
+    · exact (alignLt_planar hO hF _).mp (hv.front O1 (by simp)).1
+    · exact (alignLt_planar hT hF _).mp (hv.front T1 (by simp)).1
+    · exact (alignLt_planar hL hF _).mp (hv.front L1 (by simp)).1
+    · exact (alignLt_planar hR hF _).mp (hv.front R1 (by simp)).1
+    · exact (alignLt_planar hB hF _).mp (hv.front B1 (by simp)).1
+  · intro s hs
+    simp only [List.mem_cons, List.not_mem_nil, or_false] at hs
+    rcases hs with rfl | rfl | rfl
+    · exact (alignLt_planar hO hT _).mp (hv.top O1 (by simp)).1
+    · exact (alignLt_planar hL hT _).mp (hv.top L1 (by simp)).1
+    · exact (alignLt_planar hR hT _).mp (hv.top R1 (by simp)).1
+
 end CBV.C18
